@@ -19,6 +19,17 @@
 #include <cstdio>
 #include <cmath>
 #include <cstdint>
+#include <unistd.h>
+#include <sys/wait.h>
+
+// fork mode (set by harnesses whose operations may corrupt memory or trap when objects alias: polynomials resize
+// the destination vector while iterating over the aliased operand; RecInt divides by a clobbered modulus): every
+// case runs in a child process; a child killed by a signal yields "... CRASH <signal>" instead of killing the run.
+static bool g_fork = false;
+static int g_fd = -1;
+static void emit_partial(std::ostringstream& out) {
+    if (g_fd >= 0) { std::string s = out.str(); if (write(g_fd, s.data(), s.size()) < 0) {} out.str(""); }
+}
 
 typedef std::vector<std::string> Args;
 
@@ -54,6 +65,7 @@ static std::string run_two(const Case& c, Op& op) {
         out << "F";
         for (int k = 0; k < c.n; ++k) out << " " << IOE::show(*o[k]);
         if (!ret.empty()) out << " R " << ret;
+        emit_partial(out);
     }
     {   // aliased: one object per class
         int nc = 0;
@@ -125,7 +137,26 @@ static int main_loop() {
         if (!parse_case(line, c)) { if (!line.empty()) std::cout << "BAD-LINE\n"; continue; }
         std::map<std::string, DomFn>::iterator it = dom_table().find(c.dom);
         if (it == dom_table().end()) { std::cout << "UNKNOWN-DOM\n"; continue; }
-        std::cout << it->second(c) << "\n";
+        if (!g_fork) { std::cout << it->second(c) << "\n"; continue; }
+        { Case prep = c; prep.op = "__prepare__"; it->second(prep); }     // build the domain object in the parent
+        int fds[2];
+        if (pipe(fds) != 0) { std::cout << "PIPE-ERROR\n"; continue; }
+        std::cout.flush();
+        pid_t pid = fork();
+        if (pid == 0) {
+            close(fds[0]); g_fd = fds[1];
+            std::string r = it->second(c);
+            if (write(g_fd, r.data(), r.size()) < 0) {}
+            _exit(0);
+        }
+        close(fds[1]);
+        std::string got; char buf[4096]; ssize_t k;
+        while ((k = read(fds[0], buf, sizeof buf)) > 0) got.append(buf, (size_t) k);
+        close(fds[0]);
+        int st = 0; waitpid(pid, &st, 0);
+        if (WIFSIGNALED(st)) got += " CRASH " + std::to_string(WTERMSIG(st));
+        for (size_t i = 0; i < got.size(); ++i) if (got[i] == '\n') got[i] = ' ';
+        std::cout << got << "\n";
     }
     return 0;
 }
